@@ -41,12 +41,17 @@ C04Failing(r) ==
        \/ x = "TextLines" /\ c = "text" /\ (~e.has_data \/ e.data # TextLines(r.sec.payload))
        \/ x = "PluginOutput" /\ c = "plugin" /\ r.expect_canon # "" /\ e.canon # r.expect_canon }
 
+RECURSIVE Dedup(_, _)
+Dedup(s, seen) == IF s = <<>> THEN <<>>
+                  ELSE IF Head(s) \in seen THEN Dedup(Tail(s), seen)
+                  ELSE <<Head(s)>> \o Dedup(Tail(s), seen \cup {Head(s)})
+\* repeated imports of one module are harmless: import sequences are compared without repetitions
 C18Failing(r) ==
     LET expectImport == r.plugins /\ r.sec.kind \in {"UD", "ED"} /\ ~IsBuiltin(r.sec)
         name == UdModName(r.sec.creator, r.sec.comp)
     IN
     {x \in {"ModuleName", "Args", "CalledOnce", "Contained", "NothingImported", "NothingLoaded"} :
-       \/ x = "ModuleName" /\ expectImport /\ r.imports # <<name>>
+       \/ x = "ModuleName" /\ expectImport /\ Dedup(r.imports, {}) # <<name>>
        \/ x = "Args" /\ expectImport /\ r.beh # "absent" /\ r.fixture
              /\ (Len(r.calls) # 1 \/ (Len(r.calls) = 1 /\
                    ( r.calls[1].sub # r.sec.sub \/ r.calls[1].ver # r.sec.ver \/ r.calls[1].payload # r.sec.payload )))
@@ -70,7 +75,7 @@ ExpectedSrcImports(r) ==
     IF r.creator = BMC THEN <<SrcModName(r.creator), OsrcTarget(r.ascii)>> ELSE <<SrcModName(r.creator)>>
 SrcFailing(r) ==
     {x \in {"SrcModuleName", "SrcArgs", "SrcDetails", "SrcContained", "SrcNothingImported", "NothingLoaded"} :
-       \/ x = "SrcModuleName" /\ r.plugins /\ r.imports # ExpectedSrcImports(r)
+       \/ x = "SrcModuleName" /\ r.plugins /\ Dedup(r.imports, {}) # ExpectedSrcImports(r)
        \/ x = "SrcArgs" /\ r.plugins /\ r.beh # "absent" /\ r.fixture
              /\ (Len(r.calls) # 1 \/ (Len(r.calls) = 1 /\ ~SrcArgsOK(r, r.calls[1])))
        \/ x = "SrcDetails" /\ (r.has_details # (r.plugins /\ r.beh = "ok"))
@@ -78,6 +83,15 @@ SrcFailing(r) ==
        \/ x = "SrcContained" /\ r.others # r.others_ok
        \/ x = "SrcNothingImported" /\ ~r.plugins /\ (r.imports # <<>> \/ r.calls # <<>>)
        \/ x = "NothingLoaded" /\ ~r.plugins /\ r.modules_after # r.modules_before }
+
+\* r.kind = "src2": one BMC PEL with a primary and a secondary SRC (asciis), import caches empty before it:
+\*   imports, call_mods (the module each fixture call arrived in, in order), present (per SRC: does its
+\*   target module exist)
+Src2Failing(r) ==
+    LET targets == [k \in 1..Len(r.asciis) |-> OsrcTarget(r.asciis[k])] IN
+    {x \in {"Src2ModuleNames", "Src2CallOrder"} :
+       \/ x = "Src2ModuleNames" /\ Dedup(r.imports, {}) # Dedup(<<SrcModName(BMC)>> \o targets, {})
+       \/ x = "Src2CallOrder" /\ r.call_mods # SelectSeq(targets, LAMBDA t : \E k \in 1..Len(targets) : targets[k] = t /\ r.present[k]) }
 
 (* ---- the I/O drawer plug-in (C18) ---------------------------------------- *)
 \* r.kind = "m2c00": sub, ver, is_object, keys (seq of strings), lines, standalone (lines of the
@@ -95,7 +109,7 @@ M2Failing(r) ==
 \* r.kind = "callout": creator, plugins, beh, imports (under calloutparsers.), has_desc, others, others_ok
 CoFailing(r) ==
     {x \in {"CalloutModuleName", "CalloutDescription", "CalloutContained", "CalloutNothingImported"} :
-       \/ x = "CalloutModuleName" /\ r.plugins /\ r.imports # <<CalloutModName(r.creator)>>
+       \/ x = "CalloutModuleName" /\ r.plugins /\ Dedup(r.imports, {}) # <<CalloutModName(r.creator)>>
        \/ x = "CalloutDescription" /\ (r.has_desc # (r.plugins /\ r.beh = "ok"))
        \/ x = "CalloutContained" /\ r.others # r.others_ok
        \/ x = "CalloutNothingImported" /\ ~r.plugins /\ r.imports # <<>> }
@@ -105,6 +119,7 @@ Failing(r) ==
     ELSE IF r.family = "C04" THEN C04Failing(r)
     ELSE CASE r.kind = "ud" -> C04Failing(r) \cup C18Failing(r)
            [] r.kind = "src" -> SrcFailing(r)
+           [] r.kind = "src2" -> Src2Failing(r)
            [] r.kind = "m2c00" -> M2Failing(r)
            [] r.kind = "callout" -> CoFailing(r)
 
